@@ -251,6 +251,17 @@ def _facade_calls(repo: Repo):
 VALUE_PARAMS = ("values", "values1", "values2")
 
 
+def _resolve_local(m: Func, e: Optional[ast.AST], depth: int = 0) -> Optional[ast.AST]:
+    """a Name with exactly one assignment in the method stands for the assigned expression"""
+    if isinstance(e, ast.Name) and depth < 4 and e.id not in m.named_params:
+        defs = [n for n in walk_no_nested(m.node) if isinstance(n, ast.Assign) and len(n.targets) == 1
+                and isinstance(n.targets[0], ast.Name) and n.targets[0].id == e.id]
+        stores = [n for n in walk_no_nested(m.node) if isinstance(n, ast.Name) and n.id == e.id and isinstance(n.ctx, ast.Store)]
+        if len(defs) == 1 and len(stores) == 1:
+            return _resolve_local(m, defs[0].value, depth + 1)
+    return e
+
+
 def _is_selected_values(e: Optional[ast.AST]) -> bool:
     c = attr_chain(e) if e is not None else None
     return c is not None and c[-1] == "_values_to_group" and c[0] == "self"
@@ -268,7 +279,7 @@ def rule_A4(repo: Repo) -> RuleResult:
         for p in VALUE_PARAMS:
             if p in callee.named_params:
                 n += 1
-                e = b.exprs.get(p)
+                e = _resolve_local(m, b.exprs.get(p))
                 construct = f"{m.qualname} -> GroupBy.{callee.name}({p}={norm(e) if e is not None else '<unbound>'})"
                 if _is_selected_values(e):
                     res.ok(m, call, construct, "selected value columns")
@@ -312,6 +323,7 @@ def rule_A5(repo: Repo) -> RuleResult:
         for p, e in b.exprs.items():
             if e is None or b.via.get(p) in ("receiver",):
                 continue
+            e = _resolve_local(m, e)
             ra, rp = _role_of_actual(e), _role_of_param(p)
             if ra == "other":
                 continue
@@ -327,6 +339,10 @@ def rule_A5(repo: Repo) -> RuleResult:
                         f"{ra[7:]!r} is bound to parameter {p!r} although the core method has a parameter {ra[7:]!r} (swapped actuals)")
             else:
                 res.ok(m, call, construct, "same role")
+        for dp, de in b.duplicates:
+            res.bad(m, call, f"{m.qualname} -> GroupBy.{callee.name}: {norm(de) if de is not None else '?'} -> {dp} (also keyword)",
+                    f"a positional actual lands on parameter {dp!r} of the core method, which is also passed by keyword "
+                    f"(TypeError: multiple values) - the positional actual was meant for another parameter")
         for extra in b.unbound_extra:
             res.bad(m, call, f"{m.qualname} -> GroupBy.{callee.name}: keyword {extra}",
                     f"keyword {extra!r} matches no parameter of the core method (TypeError at run time)")
@@ -363,6 +379,11 @@ def rule_A6(repo: Repo) -> RuleResult:
                                     "raises KeyError or yields other rows")
                         else:
                             res.bad(f, s, norm(s), "row positions are used with plain [] (label-based for Series / columns for frames)")
+                for s in ast.walk(loop):
+                    if isinstance(s, ast.Call) and isinstance(s.func, ast.Attribute) and s.func.attr == "take" and s.args \
+                            and isinstance(s.args[0], ast.Name) and s.args[0].id in idx_names:
+                        n += 1
+                        res.ok(f, s, norm(s), "positional (take)")
     if n < 1:
         raise AnalysisError("A6: iteration over groups not found in the facade")
     return res
@@ -454,9 +475,70 @@ def _forwarding(repo: Repo, res: RuleResult, m: Func, params: List[str], callee_
         if isinstance(x, ast.Assign) and len(x.targets) == 1 and isinstance(x.targets[0], ast.Name) \
                 and isinstance(x.value, ast.Call) and norm(x.value.func) == "getattr" and len(x.value.args) >= 2:
             base = x.value.args[0]
-            if norm(base) in ("self", "self._grouper"):
-                getattr_vars[x.targets[0].id] = list(_public_reductions(repo).values())
+            bc = attr_chain(base)
+            if norm(base) == "self" or (bc and bc[0] == "self" and bc[-1] == "_grouper"):
+                cands = list(_public_reductions(repo).values())
+                pat = x.value.args[1]
+                if isinstance(pat, ast.JoinedStr):
+                    pre = "".join(v.value for v in pat.values if isinstance(v, ast.Constant))
+                    if pre:
+                        cands = [c for c in cands if c.name.startswith(pre)]
+                getattr_vars[x.targets[0].id] = cands
                 getattr_consumed[x.targets[0].id] = {y.id for y in ast.walk(x.value.args[1]) if isinstance(y, ast.Name)}
+    # deferred calls of a callee that is itself a parameter: signature(func).bind(values=x, **shared) - the semantic
+    # parameter must be among the keywords handed to bind (explicitly or through a local dict built in this function)
+    for x in walk_no_nested(m.node):
+        if isinstance(x, ast.Call) and isinstance(x.func, ast.Attribute) and x.func.attr in ("bind", "bind_partial") \
+                and isinstance(x.func.value, ast.Call) and norm(x.func.value.func) in ("signature", "inspect.signature") \
+                and x.func.value.args and isinstance(x.func.value.args[0], ast.Name) \
+                and x.func.value.args[0].id in m.named_params:
+            keys: Dict[str, ast.AST] = {}
+            unknown_open = False
+            for k in x.keywords:
+                if k.arg is not None:
+                    keys[k.arg] = k.value
+                elif isinstance(k.value, ast.Name):
+                    if m.node.args.kwarg is not None and k.value.id == m.node.args.kwarg.arg:
+                        continue          # m's own **kwargs cannot contain one of m's named parameters
+                    defs = [d for d in walk_no_nested(m.node) if isinstance(d, ast.Assign) and len(d.targets) == 1
+                            and isinstance(d.targets[0], ast.Name) and d.targets[0].id == k.value.id]
+                    if len(defs) == 1 and isinstance(defs[0].value, ast.Call) and norm(defs[0].value.func) == "dict":
+                        for kk in defs[0].value.keywords:
+                            if kk.arg is not None:
+                                keys[kk.arg] = kk.value
+                            elif not (isinstance(kk.value, ast.Name) and m.node.args.kwarg is not None
+                                      and kk.value.id == m.node.args.kwarg.arg):
+                                unknown_open = True
+                        # later item assignments d[k] = v
+                        for d in walk_no_nested(m.node):
+                            if isinstance(d, ast.Assign) and isinstance(d.targets[0], ast.Subscript) \
+                                    and isinstance(d.targets[0].value, ast.Name) and d.targets[0].value.id == k.value.id \
+                                    and isinstance(d.targets[0].slice, ast.Constant):
+                                keys[d.targets[0].slice.value] = d.value
+                    else:
+                        unknown_open = True
+                else:
+                    unknown_open = True
+            for p in params:
+                if p not in m.named_params:
+                    continue
+                applied_here = any(isinstance(y, ast.Subscript) and (
+                    (isinstance(y.value, ast.Name) and y.value.id == p) or
+                    p in {z.id for z in ast.walk(y.slice) if isinstance(z, ast.Name)}) for y in ast.walk(m.node))
+                if applied_here:
+                    continue      # m applies the parameter itself (apply() filters the rows before calling the user function)
+                n += 1
+                construct = f"{m.qualname} -> signature({x.func.value.args[0].id}).{x.func.attr}: {p}"
+                if p in keys and (p in {y.id for y in ast.walk(keys[p]) if isinstance(y, ast.Name)} or _derived_from(m, keys[p], p)):
+                    res.ok(m, x, construct, f"bound to {m.name}'s {p}")
+                elif p in keys:
+                    res.bad(m, x, construct, f"{p!r} of the deferred call is bound to {norm(keys[p])}, not to {m.name}'s own {p!r}")
+                elif unknown_open:
+                    res.ok(m, x, construct, "forwarded through a dictionary the analyser cannot enumerate", nontrivial=False)
+                else:
+                    res.bad(m, x, construct,
+                            f"{m.name} accepts {p!r} but the arguments bound for the deferred call of "
+                            f"{x.func.value.args[0].id} do not contain it: the kernel runs without the caller's {p}")
     for rec in ev.calls:
         call = rec.node
         callees: List[Func] = []
@@ -480,7 +562,7 @@ def _forwarding(repo: Repo, res: RuleResult, m: Func, params: List[str], callee_
                 pass
             if callee_filter and not callee_filter(callee):
                 continue
-            if callee.module.name not in (CORE, "groupby.numba", "emas", "nanops"):
+            if callee.module.name not in (CORE, "groupby.numba", "emas", "nanops", API):
                 continue
             via_getattr = isinstance(call.func, ast.Name) and call.func.id in getattr_vars
             skip_self = None
@@ -493,6 +575,18 @@ def _forwarding(repo: Repo, res: RuleResult, m: Func, params: List[str], callee_
             b = bind_call(ev, rec, callee, skip_self=skip_self)
             for p in params:
                 cp = rename.get(p, p)
+                if p in m.named_params and cp not in callee.named_params and callee.node.args.kwarg is not None:
+                    # the callee collects it in **kwargs (apply(..., q=q) hands q to the user function)
+                    kw = next((k for k in call.keywords if k.arg == cp), None)
+                    if kw is not None:
+                        n += 1
+                        construct = f"{m.qualname} -> {callee.qualname}: {cp} (through **{callee.node.args.kwarg.arg})"
+                        if p in {x.id for x in ast.walk(kw.value) if isinstance(x, ast.Name)} or _derived_from(m, kw.value, p):
+                            res.ok(m, call, construct, f"bound to {m.name}'s {p}")
+                        else:
+                            res.bad(m, call, construct,
+                                    f"{cp!r} is passed on as {norm(kw.value)}, not as {m.name}'s own {p!r}: the caller's {p} is ignored")
+                    continue
                 if p not in m.named_params or cp not in callee.named_params:
                     continue
                 n += 1
@@ -505,7 +599,7 @@ def _forwarding(repo: Repo, res: RuleResult, m: Func, params: List[str], callee_
                     res.ok(m, call, construct, f"bound to {m.name}'s {p}" + ("" if isinstance(v, ParamVal) else f" via {norm(e)[:40]}"))
                 elif via_getattr and p in getattr_consumed.get(call.func.id, set()):
                     res.ok(m, call, construct, f"{p} selects the callee (getattr)", nontrivial=False)
-                elif isinstance(v, CS) and _tested_locally(m, p):
+                elif isinstance(v, CS) and p == "margins" and _tested_locally(m, p):
                     res.ok(m, call, construct, f"constant {v!r}; {m.name} applies its own {p} to the result", nontrivial=False)
                 elif cp not in b.values and _under_none_test(m, call, p):
                     res.ok(m, call, construct, f"omitted only where {p} is None", nontrivial=False)
